@@ -50,7 +50,25 @@ for cfg in ("all", "default", "checkpoint", "futures"):
     for k, v in guardvocab.must_effects(p).items():
         # a function compiled in several configurations: keep what holds in all of them
         must[k] = sorted(set(must[k]) & set(v)) if k in must else v
+reach = {}
+mayeff = {}
+wsites = {}
+mw = {}
+wv = {}
+for cfg in ("all", "default", "checkpoint", "futures"):
+    p = facts.load(cfg)
+    for k, v in guardvocab.reach_effects(p).items():
+        reach[k] = sorted(set(reach[k]) & set(v)) if k in reach else v
+    for k, v in guardvocab.may_effects(p)[0].items():
+        mayeff[k] = sorted(set(mayeff.get(k, [])) | set(v))
+    m_, v_, n_ = guardvocab.write_tables(p)
+    for k, v in n_.items():
+        wsites[k] = max(wsites.get(k, 0), len(set(v)))
+    for k, v in m_.items():
+        mw[k] = sorted(set(mw[k]) & set(v)) if k in mw else v
+    for k, v in v_.items():
+        wv[k] = sorted(set(wv.get(k, [])) | set(v))
 out = os.path.join(os.path.dirname(os.path.abspath(__file__)), "..", "lint", "reference.json")
 with open(out, "w") as fh:
-    json.dump(dict(fns=fns, adts=adts, closures=closures, guard_vocab=vocab, must_effects=must), fh, indent=0, sort_keys=True)
+    json.dump(dict(fns=fns, adts=adts, closures=closures, guard_vocab=vocab, must_effects=must, reach_effects=reach, must_writes=mw, write_vocab=wv, may_effects=mayeff, write_sites=wsites), fh, indent=0, sort_keys=True)
 print(len(fns), "functions,", len(adts), "structs,", len(closures), "closures written")
